@@ -78,7 +78,7 @@ func c07Check(t failer, c *EvalCase, ch bx.Chooser) (int, ref.Set) {
 		// (a) parse level
 		ast, perr := grammar.Parse("", []byte(text))
 		if perr != nil {
-			t.Fatalf("harness: %q rejected: %v", text, perr)
+			violation(t, "C07", "TestC07_Spellings", c, "spelling %d of the selectors is rejected by the parser: %s: %v (paths %q)", st, strconv.Quote(text), perr, wantPaths)
 		}
 		var got [][]string
 		selectorsOf(ast.(grammar.Expression), &got)
